@@ -191,7 +191,9 @@ def r3_errors_reach_watcher(ctx):
     hfm_, helpers_ = frontend_family(F)
     wr = r"TransportSenderT::send$|async_client::helpers::stop_subscription$"
     groups = [("handle_frontend_messages", [hfm_] + helpers_, wr + "|" + "|".join(re.escape(h.path[:-len("::{closure#0}")]) + "$" for h in helpers_) if helpers_ else wr),
-              ("stop_subscription", [F.one(r"^jsonrpsee_core::client::async_client::helpers::stop_subscription::\{closure#0\}$")], r"TransportSenderT::send$")]
+              ("stop_subscription", F.find(r"^jsonrpsee_core::client::async_client::helpers::stop_subscription::\{closure#0\}$"), r"TransportSenderT::send$")]
+    if not groups[1][1]:
+        groups.pop()   # the helper was inlined into its caller: its write is one of handle_frontend_messages' writes now
     for label, bodies, calls_pat in groups:
         total = 0
         for b in bodies:
